@@ -140,7 +140,7 @@ theorem live_builtins_restored_though_unsynced :
     (run liveCfg [.enter false, .op (.setDefaultWs " "), .exit false] ⟨liveInit, [], false, none⟩).st.builtins = liveInit.builtins := by
   refine ⟨?_, by decide, by decide⟩
   intro h
-  have := h ⟨['\t', '\r', ' '], true⟩ (by decide) rfl
+  have := h ⟨['\t', '\r', ' '], true, false⟩ (by decide) rfl
   revert this
   decide
 
@@ -207,6 +207,7 @@ theorem Excl_stepOp (cfg : Cfg) (o : Op) {s : State} (h : Excl s) : Excl (stepOp
   | disableMemo => exact Excl_disableMemo s
   | copyExpr i => simp only [stepOp]; split <;> exact h
   | wrapExpr i => simp only [stepOp]; split <;> exact h
+  | assignFwd i j => simp only [stepOp]; split <;> exact h
   | _ => exact h
 
 /-- a saved context taken while at most one mode was on -/
@@ -311,13 +312,15 @@ example : (enablePackrat (some 5) false (enablePackrat (some 64) false liveInit)
 
 /-! ## 4. scope of `set_default_whitespace_chars` (attribute level) -/
 
+/-- the user's own changes to one of his expressions: `e.set_whitespace_chars(...)`, `fwd <<= e` -/
 def Cmd.isExprSetWs : Cmd → Bool
   | .op (.exprSetWs _ _ _) => true
+  | .op (.assignFwd _ _) => true
   | _ => false
 
 /-- no setting change and no context entry/exit touches an existing user expression: the user
     expressions that existed before are still there, unchanged, in the same order (new ones are
-    appended) — unless the user calls `set_whitespace_chars` on one himself -/
+    appended) — unless the user calls `set_whitespace_chars` on one or assigns to a `Forward` himself -/
 theorem users_untouched {cfg : Cfg} (hc : CfgOK cfg) : ∀ (cs : List Cmd) (m : Mach), MachOK cfg m →
     (∀ c ∈ cs, c.isExprSetWs = false) → ∃ ext, (run cfg cs m).st.users = m.st.users ++ ext
   | [], m, _, _ => ⟨[], by simp [run]⟩
@@ -332,9 +335,12 @@ theorem users_untouched {cfg : Cfg} (hc : CfgOK cfg) : ∀ (cs : List Cmd) (m : 
     | op o =>
       simp only [stepCmd]
       apply stepOp_users
-      intro i ch cd ho
-      have := hcs _ (List.mem_cons_self)
-      simp [ho, Cmd.isExprSetWs] at this
+      · intro i ch cd ho
+        have := hcs _ (List.mem_cons_self)
+        simp [ho, Cmd.isExprSetWs] at this
+      · intro i j ho
+        have := hcs _ (List.mem_cons_self)
+        simp [ho, Cmd.isExprSetWs] at this
     | enter r =>
       exact ⟨[], by simp [stepCmd, saveRaises_of_WF hm.wf]⟩
     | exit v =>
@@ -362,31 +368,70 @@ theorem users_untouched {cfg : Cfg} (hc : CfgOK cfg) : ∀ (cs : List Cmd) (m : 
         (`copyDefaultWhiteChars`), else the original's own set;
     (c) sets every built-in that follows the default to `set(c)` and leaves the other built-ins alone;
     (d) does not change any existing user expression (see `users_untouched` for arbitrary sequences);
-    (e) a *composite* built afterwards over an existing expression inherits that expression's set and
-        `copyDefaultWhiteChars` flag (so it skips exactly what its first child skips), not the new default.
+    (e) a *composite* (`And`, `Group`/`Opt`/... wrappers) built afterwards over an existing expression
+        inherits that expression's set and `copyDefaultWhiteChars` flag, not the new default
+        (`MatchFirst`/`Or` take nothing over: they are `newExpr`);
+    for `Forward`s see `forward_ws_scope_partial`.
     PARTIAL: the statement is about the attributes `whiteChars`/`copyDefaultWhiteChars`, which is all the
     setter touches; that these attributes determine which characters an expression actually skips, and
     how composites inherit them from their first sub-expression, is not modelled — it is checked on the
     real parser by the oracle (`ws-behaviour` stream). -/
 theorem default_ws_scope_partial (cfg : Cfg) (c : String) (s : State) :
-    (stepOp cfg .newExpr (setDefaultWs c s)).1.users = s.users ++ [⟨pySet c, true⟩] ∧
-    (∀ e : Expr, copyExpr (setDefaultWs c s) e = if e.copyDef then ⟨pySet c, true⟩ else e) ∧
+    (stepOp cfg .newExpr (setDefaultWs c s)).1.users = s.users ++ [⟨pySet c, true, false⟩] ∧
+    (∀ e : Expr, e.fwdEmpty = false →
+      copyExpr (setDefaultWs c s) e = if e.copyDef then { e with ws := pySet c } else e) ∧
     (∀ e ∈ (setDefaultWs c s).builtins, e.copyDef = true → e.ws = pySet c) ∧
     BRelL s.builtins (setDefaultWs c s).builtins ∧
     (setDefaultWs c s).users = s.users ∧
     (∀ i e, s.users[i]? = some e →
-      (stepOp cfg (.wrapExpr i) (setDefaultWs c s)).1.users = s.users ++ [⟨e.ws, e.copyDef⟩]) := by
+      (stepOp cfg (.wrapExpr i) (setDefaultWs c s)).1.users = s.users ++ [⟨e.ws, e.copyDef, false⟩]) := by
   refine ⟨rfl, ?_, ?_, ?_, rfl, ?_⟩
   rotate_left 3
   · intro i e he
     have : (setDefaultWs c s).users[i]? = some e := he
     simp only [stepOp, this, wrapExpr]
     rfl
-  · intro e
-    cases e with | mk w cd =>
-    cases cd <;> simp [copyExpr, setDefaultWs]
+  · intro e he
+    simp [copyExpr, setDefaultWs, he]
   · exact Synced_setDefaultWs c s
   · exact BRel_setDefaultWs c s.builtins s.builtins (BRel_refl _)
+
+/-- **forward_ws_scope_partial** (the `Forward` clauses of the same statement).
+    (a) `fwd <<= e` gives the Forward `e`'s whitespace set *and* `e`'s `copyDefaultWhiteChars` flag
+        (nothing else among the user expressions changes);
+    (b) hence a copy (`copy()`, `fwd()`, `fwd("name")`) of an assigned Forward made after
+        `set_default_whitespace_chars(c)` has `set(c)` iff the assigned expression follows the default —
+        in particular always when it was built from ordinary leaves/composites without own whitespace;
+    (c) a `Forward()` created afterwards has `set(c)`;
+    (d) the copy of a *not yet assigned* Forward is a new Forward assigned to the original: it takes over
+        the original's set and flag (no re-read of the default).
+    PARTIAL in the same sense as `default_ws_scope_partial` (attributes; skipping is oracle-checked). -/
+theorem forward_ws_scope_partial (cfg : Cfg) (c : String) (s : State) (i j : Nat) (src : Expr)
+    (hj : s.users[j]? = some src) :
+    (stepOp cfg (.assignFwd i j) s).1.users = modifyNth (fun _ => ⟨src.ws, src.copyDef, false⟩) i s.users ∧
+    (src.copyDef = true →
+      copyExpr (setDefaultWs c (stepOp cfg (.assignFwd i j) s).1) ⟨src.ws, src.copyDef, false⟩
+        = ⟨pySet c, true, false⟩) ∧
+    (src.copyDef = false →
+      copyExpr (setDefaultWs c (stepOp cfg (.assignFwd i j) s).1) ⟨src.ws, src.copyDef, false⟩
+        = ⟨src.ws, false, false⟩) ∧
+    (stepOp cfg .newFwd (setDefaultWs c s)).1.users = s.users ++ [⟨pySet c, true, true⟩] ∧
+    (∀ e : Expr, e.fwdEmpty = true → copyExpr (setDefaultWs c s) e = ⟨e.ws, e.copyDef, false⟩) := by
+  refine ⟨?_, ?_, ?_, rfl, ?_⟩
+  · simp only [stepOp, hj, wrapExpr]
+  · intro h
+    simp [copyExpr, setDefaultWs, h]
+  · intro h
+    simp [copyExpr, h]
+  · intro e he
+    simp [copyExpr, he, wrapExpr]
+
+example :
+    let s0 := (stepOp liveCfg .newFwd (stepOp liveCfg .newExpr liveInit).1).1
+    let s1 := (stepOp liveCfg (.assignFwd 1 0) s0).1
+    let s2 := (stepOp liveCfg (.copyExpr 1) (setDefaultWs " " s1)).1
+    s2.users = [⟨['\t', '\n', '\r', ' '], true, false⟩, ⟨['\t', '\n', '\r', ' '], true, false⟩,
+                ⟨[' '], true, false⟩] := by decide
 
 /-- corollary of `restore_total_and_exact`: an expression built right after a context has been left gets
     the whitespace set of the default that was in force when the context was entered -/
@@ -403,6 +448,6 @@ theorem new_expr_after_exit {cfg : Cfg} (hc : CfgOK cfg) (m : Mach) (hm : MachOK
 example :
     let s := (stepOp liveCfg (.exprSetWs 0 "ab" false) (stepOp liveCfg .newExpr liveInit).1).1
     let s' := (stepOp liveCfg (.copyExpr 0) (stepOp liveCfg .newExpr (setDefaultWs "x" s)).1).1
-    s'.users = [⟨['a', 'b'], false⟩, ⟨['x'], true⟩, ⟨['a', 'b'], false⟩] := by decide
+    s'.users = [⟨['a', 'b'], false, false⟩, ⟨['x'], true, false⟩, ⟨['a', 'b'], false, false⟩] := by decide
 
 end PP.Settings
